@@ -11,6 +11,7 @@ import TaskModel.Sched.OldRule
 import TaskModel.Sched.TermAll
 import TaskModel.Gen.Codes
 import TaskModel.Sched.MonVal
+import Props.C02
 /-!
 # C07 — Bounded concurrency, no deadlock, guaranteed termination
 
@@ -18,6 +19,13 @@ Statements are about every trace the executor model accepts (`replay … = some 
 programs, flags, interleavings.  Tie: the `sched` correspondence replays the event log of
 the real executor through the same `replay`; `boundOk` is also evaluated directly on the
 implementation's event log (`monitorVerdicts`).
+
+Which statements say what (audit, session 3).  Single-step statements that restate a guard of the acceptor:
+`C07_work_conserving_dep`, `C07_work_conserving_acquire`, `C07_acquire_waits_for_slot`, `C07_cycle_error`,
+`C07_cycle_error_dedup`, `C07_wait_or_refuse` — their assurance about the real executor is the acceptance of its
+logs (and the barrier probe for work conservation).  Trace-level: `C07_bound`, `C07_tokens_are_holders`,
+`C07_cycle_bound`, `C07_wait_acyclic`, `C07_waitsFor_exact`, `C07_no_deadlock`, `C07_completes`,
+`C07_terminates_all`, `C07_ends`, `C07_no_204_if_refs_lt_max`, `C07_all_work_done`.
 -/
 namespace Props.C07
 open TaskModel.Sched.S7
@@ -617,5 +625,25 @@ theorem C07_no_204_if_refs_lt_max (P : Program) (F : Flags) (n : Nat) (tr : List
 /-- a run with fewer than `maxCalls` activations altogether never hits the limit: `callLimitMon` can only fail
 on runs at least that long -/
 example : callLimitMon progA { maxCalls := 1000 } 1 runA = true := by decide
+
+/-! ## all the work is done (trace-level)
+
+What "the invocation terminates" leaves open: that a returned activation has actually DONE its work.  For an
+activation that has returned (`done`), passed its guards and recorded no failure: every non-deferred entry of its
+command list was started (`C02_body_complete`), every deferred entry ran, last one first
+(`C14_all_run_complete`), it holds no slot, and every activation below it — dependencies, called tasks, their
+descendants — has returned with all its deferred entries run (`C02_descendants_done`). -/
+
+theorem C07_all_work_done (P : Program) (F : Flags) (n : Nat) (tr : List Label) (c : Config)
+    (h : replay P F (init n) tr = some c) (a : Nat) (x : Act) (hx : c.act? a = some x)
+    (hd : x.phase = .done) (hg : Ev.guardsPassed ∈ evsOf a tr) (ho : x.out = {}) :
+    x.started = plainBelow x.def_.cmds x.def_.cmds.length ∧
+    x.ran = (defersBelow x.def_.cmds x.def_.cmds.length).reverse ∧
+    x.holds = false ∧
+    (∀ b, Props.C02.Descendant c a b → Props.C02.Finished c b) := by
+  refine ⟨Props.C02.C02_body_complete P F n tr c h a x hx hg (by rw [hd]; rfl) ho,
+    Props.C14.C14_all_run_complete P F n tr c h a x hx hg (by rw [hd]; rfl) ho, ?_,
+    fun b hb => Props.C02.C02_descendants_done P F n tr c h a b x hx hd hb⟩
+  rw [(C07_holds_while_running P F n tr c h a x hx).1, hd]; rfl
 
 end Props.C07
